@@ -99,9 +99,11 @@ class SwitchCodeGenerator:
                 f'{keyword} {self._field_name} == {case_value_expression}'
             )
 
+        # In the default branch the field may hold anything no case matched, None included (an absent
+        # optional field): only a matched enum value is known to have a name.
         field_to_string_expression = (
             f"{self._field_data.type_.name}(data._{self._field_name}).name"
-            if isinstance(self._field_data.type_, EnumType)
+            if isinstance(self._field_data.type_, EnumType) and not default
             else f"str(data._{self._field_name})"
         )
 
